@@ -15,6 +15,7 @@ ALL_INVARIANTS = [
     "Inv_C06_AppendOnly", "Inv_C06_Numbered",
     "Inv_C08_Partition", "Inv_C08_ChildRoot", "Inv_C08_Refs", "Inv_C08_WhoWrites",
     "Inv_C12_Excluded", "Inv_C12_Accumulate", "Inv_NoInternal",
+    "Inv_C09_Identical", "Inv_C09_Detects",
     "Inv_C18_Summary", "Inv_C18_VerifyPL", "Inv_C19_Info", "Inv_C19_InfoSF", "Inv_C14_Frame",
 ]
 
@@ -53,6 +54,13 @@ SCOPES = {
         init={P("a"): "c1", P("d"): "DIR", P("d", "b"): "c2", P("e"): "DIR"}, contents=["c1", "c2"],
         roots=[P()], fmtchoices=[["md5"], ["xxh64"]], pats=[()], sf=[frozenset({P("d", "b")})],
         ops=["alter", "delete", "mkdir", "create", "createsf", "verify", "diff", "verifysf"], maxgens=2, maxops=5, keepsnap=False,
+    ),
+    # directory hashes in all six formats and their combinations, renames / edits / adds / removes at two levels
+    "dh6": dict(
+        fmts=["c4", "md5", "sha1", "xxh128", "xxh3", "xxh64"], files=[P("a"), P("a2"), P("d", "b"), P("d", "c"), P("d", "e", "f")], dirs=[P("d"), P("d", "e"), P("g")],
+        init={P("a"): "c1", P("d"): "DIR", P("d", "b"): "c2", P("d", "e"): "DIR", P("g"): "DIR"}, contents=["c1", "c2", "EMPTY"],
+        roots=[P()], fmtchoices=[["c4"], ["md5"], ["sha1"], ["xxh128"], ["xxh3"], ["xxh64"], ["c4", "md5", "sha1", "xxh128", "xxh3", "xxh64"], ["c4", "xxh64"], ["md5", "sha1", "xxh3"]],
+        pats=[()], sf=[], ops=["alter", "delete", "rename", "mkdir", "create", "verifydhco", "verifydh"], maxgens=4, maxops=8, keepsnap=True,
     ),
     # every command on a small flat tree (C14, C18, C19)
     "cmds": dict(
